@@ -1293,3 +1293,20 @@ package kapacitor
 //@   ensures [resumes-at-recorded-level] callresult(restoreEvent, 0) != 0 ==> result.history[result.idx] == callresult(restoreEvent, 0)
 //@       && result.lastTriggered == callresult(restoreEvent, 1) && result.firstTriggered == callresult(restoreEvent, 1)
 //@   ensures [ok-starts-fresh] callresult(restoreEvent, 0) == 0 ==> result.history[result.idx] == 0 && result.idx == 0
+
+// delFork (a task stops or is deleted): only that task's registrations go away -- every other
+// task keeps every registration it had, with the same edge ("starting, stopping or deleting other
+// tasks does not lose ... points of a running task").
+//@ func =(github.com/influxdata/kapacitor/edge.Edge).Close
+//@   trusted
+//@   modifies nothing
+//@ func (*TaskMaster).delFork
+//@   props C02
+//@   requires tm != nil && tm.taskToForkKeys != nil
+//@   ensures [others-keep-their-forks] forall k forkKey, n string :: n != id && has(old(tm.forks), k) && has(old(tm.forks[k]), n) ==>
+//@       has(tm.forks, k) && has(tm.forks[k], n) && tm.forks[k][n] == old(tm.forks[k][n])
+//@   ensures [task-forgotten] !has(tm.taskToForkKeys, id)
+//@   loop 1
+//@     invariant tm.taskToForkKeys != nil
+//@     invariant forall k forkKey, n string :: n != id && has(before(tm.forks), k) && has(before(tm.forks[k]), n) ==>
+//@       has(tm.forks, k) && has(tm.forks[k], n) && tm.forks[k][n] == before(tm.forks[k][n])
